@@ -280,6 +280,31 @@ pub fn run(tier: Tier, _seed: u64, tally: &mut Tally) -> CheckMeta {
                 i += 1;
             }
         }
+        // F8 hexadecimal string tokens (<...> of 2..32 digits): replaced by boundary values of the same length (all F, all 0, FF..FD,
+        // FF..FE, 7F..F, 80..0), by one digit less, and by twice the digits
+        if !corpus {
+            let b = &s.bytes;
+            let mut i = 0;
+            while i + 1 < n {
+                if b[i] == b'<' && b[i + 1] != b'<' && (i == 0 || b[i - 1] != b'<') {
+                    if let Some(close) = (i + 1..n.min(i + 40)).find(|&j| b[j] == b'>') {
+                        let body = &b[i + 1..close];
+                        if body.len() >= 2 && body.iter().all(|c| c.is_ascii_hexdigit()) {
+                            let k = body.len();
+                            let mut variants: Vec<String> = vec!["F".repeat(k), "0".repeat(k), format!("{}D", "F".repeat(k - 1)), format!("{}E", "F".repeat(k - 1)), format!("7{}", "F".repeat(k - 1)), format!("8{}", "0".repeat(k - 1)), "F".repeat(k - 1), "F".repeat(2 * k)];
+                            variants.dedup();
+                            for v in variants {
+                                if v.as_bytes() != body {
+                                    jobs.push((si, json!({"fault": "token", "at": i + 1, "end": close, "text": v})));
+                                }
+                            }
+                        }
+                        i = close;
+                    }
+                }
+                i += 1;
+            }
+        }
         // F6 small integer arrays ([a b c] with 2-4 integer tokens and nothing else): every assignment of {0, 1, 2^31-1} to
         // all their tokens at once (field widths, index pairs, boxes: code often divides by or multiplies such groups)
         if !corpus {
@@ -403,7 +428,7 @@ pub fn run(tier: Tier, _seed: u64, tally: &mut Tally) -> CheckMeta {
     CheckMeta {
         prop: "C01",
         level: "fault_enumeration",
-        rule: format!("edit neighbourhood of {} seeds (generated: small, xref-stream chain, rich classic / xref-stream+objstm, hostile extras with /Prev chain, RC4-encrypted; corpus: the 9 former crash inputs{}): every single-byte substitution at every offset by {} byte values, every truncation and prefix drop, every number token replaced by 8 boundary tokens, every array of 2-4 integers set to every assignment of {{0, 1, 2^31-1}}, a 2- and a 3-byte UTF-8 character inserted at and written over every offset of every literal string{}; plus the {} hand-built hostile structures of C14 as they are; {} faulted inputs in total, each opened strict/tolerant x cached/uncached ({}) and walked completely (pages, inherited attributes, resources, fonts with widths and Unicode maps, images, forms, operators, trees, every object by number, scan) in a worker process: no panic, no crash, no call over 10 s. Distinct by (bytes, configuration).", seeds.len(), if tier.thorough() { ", all valid and password-protected corpus files up to 40 KB" } else { "" }, if tier.thorough() { "all 256 (seeds <= 2 KB) / 24" } else { "12 (small seeds) / 8 (large generated seeds) / 6 at <= 1000 evenly spaced offsets (corpus crash files)" }, if tier.thorough() { " and by every other number of the file, every single-byte deletion and insertion, dictionary-entry deletion/duplication, pairs of substitutions in 16-byte windows of the trailer region" } else { "" }, n_specials, total_jobs, if tier.thorough() { "all four" } else { "all four on small seeds, strict-uncached + tolerant-cached on large ones" }),
+        rule: format!("edit neighbourhood of {} seeds (generated: small, xref-stream chain, rich classic / xref-stream+objstm, hostile extras with /Prev chain, RC4-encrypted; corpus: the 9 former crash inputs{}): every single-byte substitution at every offset by {} byte values, every truncation and prefix drop, every number token replaced by 8 boundary tokens, every array of 2-4 integers set to every assignment of {{0, 1, 2^31-1}}, every hexadecimal string token replaced by 8 boundary values, a 2- and a 3-byte UTF-8 character inserted at and written over every offset of every literal string{}; plus the {} hand-built hostile structures of C14 as they are; {} faulted inputs in total, each opened strict/tolerant x cached/uncached ({}) and walked completely (pages, inherited attributes, resources, fonts with widths and Unicode maps, images, forms, operators, trees, every object by number, scan) in a worker process: no panic, no crash, no call over 10 s. Distinct by (bytes, configuration).", seeds.len(), if tier.thorough() { ", all valid and password-protected corpus files up to 40 KB" } else { "" }, if tier.thorough() { "all 256 (seeds <= 2 KB) / 24" } else { "12 (small seeds) / 8 (large generated seeds) / 6 at <= 1000 evenly spaced offsets (corpus crash files)" }, if tier.thorough() { " and by every other number of the file, every single-byte deletion and insertion, dictionary-entry deletion/duplication, pairs of substitutions in 16-byte windows of the trailer region" } else { "" }, n_specials, total_jobs, if tier.thorough() { "all four" } else { "all four on small seeds, strict-uncached + tolerant-cached on large ones" }),
         assumptions: vec!["no claim beyond the stated neighbourhoods of the seed set".into(), "resource proportionality is decided against fixed thresholds (10 s per walk, 3 GiB)".into()],
         exhaustive: true,
         bounds: json!({"faults_per_input": if tier.thorough() { 2 } else { 1 }}),
